@@ -253,7 +253,12 @@ class Report:
     def nontrivial(self, key):
         self.distinct.add(key)
 
+    MAX_VIOLATIONS = 8
+
     def violation(self, what, payload, no_input=False):
+        self.n_violations = getattr(self, 'n_violations', 0) + 1
+        if len(self.violations) >= self.MAX_VIOLATIONS:
+            return      # counted, not written: the first few replays are enough to act on
         os.makedirs(OUT_DIR, exist_ok=True)
         n = len(self.violations)
         path = os.path.join(OUT_DIR, '{}_{}_{}.json'.format(self.prop, self.tier, n))
@@ -289,7 +294,7 @@ class Report:
             cov.update(extra)
         ev = dict(property_id=self.prop, tier=self.tier, seed=seed(), level=self.level,
                   coverage=cov, assumptions=self.assumptions, wall_s=self.timer.s(),
-                  violations=len(self.violations))
+                  violations=getattr(self, 'n_violations', 0))
         os.makedirs(EVIDENCE_DIR, exist_ok=True)
         with open(os.path.join(EVIDENCE_DIR, self.prop + '.json'), 'w') as f:
             json.dump(ev, f, indent=1, default=repr)
